@@ -28,13 +28,24 @@ def resultOf? (j : Json) : Option Result := do
   | [.str "permanent"] => some .permanent
   | _ => none
 
-def runOf? (j : Json) : Option Run := do
+def iterOf? (j : Json) : Option Iter := do
   let start ← jInt? (← jField? j "start")
   let ended ← jInt? (← jField? j "ended")
   let patched ← jInt? (← jField? j "patched")
-  let attempt ← jNat? (← jField? j "attempt")
-  let res ← resultOf? (← jField? j "res")
-  some { start, ended, patched, attempt, res }
+  let res ← jOpt? resultOf? (← jField? j "res")
+  some { start, ended, patched, res }
+
+def stateOf? (j : Json) : Option HState := do
+  let retries ← jNat? (← jField? j "retries")
+  let success ← jBool? (← jField? j "success")
+  let failure ← jBool? (← jField? j "failure")
+  let delayed ← jOpt? jInt? (← jField? j "delayed")
+  some { retries, success, failure, delayed }
+
+def evOf? (j : Json) : Option Ev := do
+  match ← jArr? j with
+  | [t, e, lh] => do pure { t := ← jInt? t, ess := ← jNat? e, lastHandled := ← jOpt? jNat? lh }
+  | _ => none
 
 /-- observed reads of `idle_reset_time`: [[t, v], …]; two different values at one instant are refused -/
 def obsOf? (j : Json) : Option (List (Int × Int)) := do
@@ -52,7 +63,6 @@ def jI (i : Int) : Json := .num (JsonNumber.fromInt i)
 def resJson : Res → Json
   | .start t => .arr #[.str "start", jI t]
   | .ended => .arr #[.str "ended"]
-  | .never => .arr #[.str "never"]
   | .noObs t => .arr #[.str "noobs", jI t]
   | .diverged => .arr #[.str "diverged"]
 
@@ -61,21 +71,28 @@ def wakeJson : Wake → Json
   | .poll i => .arr #[.str "poll", jI i]
   | .stop => .arr #[.str "stop"]
 
+def stateJson (h : HState) : Json :=
+  Json.mkObj [("retries", .num (JsonNumber.fromNat h.retries)), ("success", .bool h.success), ("failure", .bool h.failure),
+    ("delayed", match h.delayed with | some d => jI d | none => .null)]
+
 def handle : DrvHandler := fun op args =>
   match op, args with
-  | "C10.next", [cj, rj, oj, fj] => do
+  | "C10.iter", [cj, hj, ij, oj, fj] => do
+      -- one loop iteration entered with the carried state `h`: does it invoke, what state does it leave,
+      -- where is the loop back at its top, when does the next iteration start
       let cfg ← cfgOf? cj
-      let r ← runOf? rj
+      let h ← stateOf? hj
+      let it ← iterOf? ij
       let obs ← obsOf? oj
       let fuel ← jNat? fj
-      let out := r.out cfg
+      let h' := step cfg h it
       some (ok (Json.mkObj [
-        ("res", resJson (nextStartN cfg (pviewOf obs) fuel r)),
-        ("wake", wakeJson (wake cfg r)),
-        ("done", .bool (match out with | .retry _ => false | _ => true)),
-        ("failed", .bool (match out with | .failed => true | _ => false)),
-        ("delay", match out with | .retry (some d) => jI d | _ => .null),
-        ("attempt", .num (JsonNumber.fromNat (nextAttempt cfg r)))]))
+        ("invokes", .bool (h.atTop.awakened it.start)),
+        ("attempt", .num (JsonNumber.fromNat (attemptOf h))),
+        ("state", stateJson h'),
+        ("top", stateJson h'.atTop),
+        ("wake", wakeJson (wake cfg h' it)),
+        ("res", resJson (nextStartN cfg (pviewOf obs) fuel h' it))]))
   | "C10.first", [cj, sj, oj, fj] => do
       let cfg ← cfgOf? cj
       let spawn ← jInt? sj
@@ -83,14 +100,18 @@ def handle : DrvHandler := fun op args =>
       let fuel ← jNat? fj
       some (ok (Json.mkObj [
         ("res", resJson (firstStartN cfg (pviewOf obs) fuel spawn)),
-        ("wake", wakeJson (.at (initialWake cfg spawn)))]))
-  | "C10.reset", [.str lh] =>
-      -- the event's essence is 0; the last-handled one is absent / the same / another one
-      match lh with
-      | "none" => some (ok (.bool (resetsIdle none 0)))
-      | "same" => some (ok (.bool (resetsIdle (some 0) 0)))
-      | "differs" => some (ok (.bool (resetsIdle (some 1) 0)))
-      | _ => none
+        ("wake", wakeJson (.at (initialWake cfg spawn))),
+        ("top", stateJson HState.fresh.atTop)]))
+  | "C10.reset", [lh, e] => do
+      let lh ← jOpt? jNat? lh
+      let e ← jNat? e
+      some (ok (.bool (resetsIdle lh e)))
+  | "C10.view", [cj, ej, tj] => do
+      -- `idle_reset_time` derived from the event history, read at the given instants
+      let created ← jInt? cj
+      let evs ← (← jArr? ej).mapM evOf?
+      let ts ← (← jArr? tj).mapM jInt?
+      some (ok (.arr (ts.map (fun t => jI (viewOf created evs t))).toArray))
   | _, _ => none
 
 end Kopf.Drv.C10
